@@ -250,3 +250,8 @@ fn o3_4_forget_frames_any_threshold() {
     std::mem::forget(fq);
 }
 
+
+impl FrameQueue {
+    pub(crate) fn verif_nonce_of(&self, frame_id: u32) -> Option<bool> { self.frame_log.get_frame(frame_id).map(|e| e.nonce) }
+    pub(crate) fn verif_acked(&self, frame_id: u32) -> Option<bool> { self.frame_log.get_frame(frame_id).map(|e| e.acked) }
+}
